@@ -80,10 +80,17 @@ pub struct PrCase {
 	pub perm: Perm,
 	/// sequence of file kinds written (crt | key | account); repeats are rewrites
 	pub writes: Vec<String>,
+	/// files that exist before the first write: (kind, uid, gid, mode), e.g. restored from a backup by root
+	#[serde(default)]
+	pub preexisting: Vec<(String, u32, u32, u32)>,
 }
 
 fn pr_strategy() -> impl Strategy<Value = PrCase> {
-	(perm_strategy(), proptest::collection::vec(proptest::sample::select(vec!["crt", "key", "account"]), 2..7)).prop_map(|(perm, w)| PrCase { perm, writes: w.into_iter().map(|s| s.to_string()).collect() })
+	let pre = proptest::collection::vec((proptest::sample::select(vec!["crt", "key"]), proptest::sample::select(vec![0u32, 1, 33, 4242]), proptest::sample::select(vec![0u32, 1, 33, 4343]), proptest::sample::select(vec![0o600u32, 0o640, 0o644, 0o400])), 0..3);
+	(perm_strategy(), proptest::collection::vec(proptest::sample::select(vec!["crt", "key", "account"]), 2..7), pre).prop_map(|(perm, w, pre)| {
+		let mut seen = std::collections::BTreeSet::new();
+		PrCase { perm, writes: w.into_iter().map(|s| s.to_string()).collect(), preexisting: pre.into_iter().filter(|p| seen.insert(p.0)).map(|(k, u, g, m)| (k.to_string(), u, g, m)).collect() }
+	})
 }
 
 fn fm_json(lay: &Layout, p: &Perm) -> Value {
@@ -131,6 +138,14 @@ fn exec_pr(case: &PrCase) -> Outcome {
 			k => json!({"kind": k, "data": hex(format!("content {i}").as_bytes()), "account_file_name": acct_file}),
 		})
 		.collect();
+	for (kind, uid, gid, mode) in case.preexisting.iter() {
+		let path = if kind == "crt" { lay.certs.join("m_ecdsa-p256.crt.pem") } else { lay.certs.join("m_ecdsa-p256.pk.pem") };
+		let _ = std::fs::write(&path, b"older content, longer than the new one ........................................\n");
+		use std::os::unix::fs::PermissionsExt;
+		let _ = std::fs::set_permissions(&path, std::fs::Permissions::from_mode(*mode));
+		let c = std::ffi::CString::new(path.display().to_string()).unwrap();
+		unsafe { libc::chown(c.as_ptr(), *uid, *gid) };
+	}
 	let mut probe = match Probe::spawn(&acmed) {
 		Ok(p) => p,
 		Err(e) => return Outcome::Infra(e),
@@ -154,14 +169,29 @@ fn exec_pr(case: &PrCase) -> Outcome {
 		if !seen.insert(kind.clone()) {
 			rewrites = true;
 		}
+		let (mode, uid, gid) = (st["mode"].as_u64().unwrap_or(0) as u32, st["uid"].as_u64().unwrap_or(0) as u32, st["gid"].as_u64().unwrap_or(0) as u32);
+		if let Some((_, pu, pg, pm)) = case.preexisting.iter().find(|p| p.0 == *kind) {
+			// a file that existed before: every write is a rewrite; the configured owner is applied, the mode is left alone
+			let (_, wu, wg) = expected(&case.perm, kind);
+			let (cu, cg) = if kind == "crt" { (&case.perm.cert_user, &case.perm.cert_group) } else { (&case.perm.pk_user, &case.perm.pk_group) };
+			let want_u = if cu.is_some() { wu } else { *pu };
+			let want_g = if cg.is_some() { wg } else { *pg };
+			if uid != want_u || gid != want_g {
+				return Outcome::fail(format!("C13:{kind}-owner-on-rewrite"), format!("{what} (file existed before with owner {pu}:{pg}): owner {uid}:{gid}, expected {want_u}:{want_g}; {:?}", case.perm));
+			}
+			if mode & 0o777 != *pm {
+				return Outcome::fail(format!("C13:{kind}-mode-on-rewrite"), format!("{what}: mode of a pre-existing file changed from {pm:04o} to {:04o}", mode & 0o777));
+			}
+			continue;
+		}
 		// creation and rewrite: a rewrite keeps the creation mode and re-applies the owner
-		if let Err((sig, detail)) = check_stat(&case.perm, kind, &what, st["mode"].as_u64().unwrap_or(0) as u32, st["uid"].as_u64().unwrap_or(0) as u32, st["gid"].as_u64().unwrap_or(0) as u32) {
+		if let Err((sig, detail)) = check_stat(&case.perm, kind, &what, mode, uid, gid) {
 			return Outcome::fail(sig, detail);
 		}
 	}
 	let p = &case.perm;
 	let nontrivial = p.pk_mode.is_some() || p.pk_user.is_some() || p.pk_group.is_some();
-	Outcome::pass(nontrivial, vec![format!("umask={:03o}", p.umask), if rewrites { "rewrite".into() } else { "creation-only".into() }, format!("pk_mode_set={}", p.pk_mode.is_some()), format!("owner_set={}", p.pk_user.is_some() || p.cert_user.is_some())])
+	Outcome::pass(nontrivial, vec![format!("umask={:03o}", p.umask), if rewrites { "rewrite".into() } else { "creation-only".into() }, format!("pk_mode_set={}", p.pk_mode.is_some()), format!("owner_set={}", p.pk_user.is_some() || p.cert_user.is_some()), format!("preexisting={}", case.preexisting.len())])
 }
 
 // ------------------------------------------------ black box
